@@ -9,7 +9,7 @@
 (* continuation byte and 0xFF): decoding outcome, value and bytes consumed.  *)
 (* Invariant: Dec(Enc(v)) = v with n = Len(Enc(v)) for every value.          *)
 (***************************************************************************)
-EXTENDS ContainerCodec, Json, IOUtils, VerifIO
+EXTENDS ContainerCodec, Json, IOUtils, VerifIO, FiniteSets
 
 I(w) == [k |-> "int", w |-> w]
 Bo == [k |-> "bool"]
@@ -41,7 +41,9 @@ Names == DOMAIN Zoo
 
 IntVals(w) == {[i \in 1..w |-> 0] \o <<>>, [i \in 1..w |-> IF i = 1 THEN 1 ELSE 0] \o <<>>, [i \in 1..w |-> 255] \o <<>>,
                [i \in 1..w |-> IF i = w THEN 128 ELSE 0] \o <<>>}
+Deep == IOEnv.MODE = "deep"            \* thorough tier: sequences up to length 3, payloads up to 4 bytes
 Seqs2(S) == {<<>>} \cup {<<a>> : a \in S} \cup {<<a, b>> : a \in S, b \in S}
+            \cup (IF Deep /\ Cardinality(S) <= 6 THEN {<<a, b, c>> : a \in S, b \in S, c \in S} ELSE {})
 RECURSIVE Vals(_)
 Vals(T) ==
     CASE T.k = "int" -> IntVals(T.w)
@@ -62,7 +64,7 @@ Vals(T) ==
       [] T.k = "pt" -> {Q \in AllPoints(CurveC) : Q = Inf \/ Valid(CurveC, Q)}
 
 Sigma == {0, 1, 2, 65, 128, 169, 195, 255}
-TestPayloads == UNION {[1..n -> Sigma] : n \in 0..3}
+TestPayloads == UNION {[1..n -> Sigma] : n \in 0..(IF Deep THEN 4 ELSE 3)}
 LenPrefixes == {LenPrefix(n) : n \in 0..4} \cup {<<0, 0, 1, 0, 0, 0, 0, 0>>, <<0, 0, 0, 0, 0, 1, 0, 0>>, <<0, 0, 0, 0, 0, 0, 0, 64>>, <<255, 255, 255, 255, 255, 255, 255, 255>>}
 HasPrefix(T) == T.k \in {"vec", "set", "map", "str", "big"} \/ (T.k \in {"ptr", "pin"} /\ T.t.k \in {"vec"})
 Strings(T) == {p \o <<>> : p \in TestPayloads} \cup (IF HasPrefix(T) THEN {pre \o p : pre \in LenPrefixes, p \in TestPayloads} ELSE {})
